@@ -113,7 +113,7 @@ def observe_packable_family(fam, tier, shapes):
             "built_specs": to_build, "build": build, "run": run, "scripts": scripts}
 
 
-FAMILY_SHAPES = {"di": F.di_shapes, "dimw": F.dimw_shapes, "mw": F.mw_shapes, "err": F.err_shapes}
+FAMILY_SHAPES = {"di": F.di_shapes, "dimw": F.dimw_shapes, "mw": F.mw_shapes, "err": F.err_shapes, "mix": F.mix_shapes}
 
 
 def load_family(fam, tier, th, force=False):
